@@ -155,3 +155,9 @@ LEMMAS['C16/pigeonhole'] = dict(
            ('fewer-occupied-than-requested-iff-shared-position',
             '(cnt%d() == ' % _N + _sum('p%d' % s for s in range(_N)) + ') == distinct()', None,
             ['C16/chain/telescoped', 'C16/all-first/count-equal-iff-all-first', 'distinct-iff-all-first'])])
+
+# ---- SUM: sums of pointwise equal sequences are equal (extensionality), by induction on the length
+LEMMAS['SUM/ext'] = dict(
+    vars={'f': ('list', 'int'), 'g': ('list', 'int'), 'n': 'int'},
+    hyps=['n >= 0', 'forall(j, 0, n, f[j] == g[j])'],
+    induct=('m', '0', 'n', 'Sum(j, m, f[j]) == Sum(j, m, g[j])'))
